@@ -21,6 +21,15 @@ from ..oracle import serdes as S, layout as L
 
 PROP = "C06"
 
+# arrays of composites (alignment 8 through their element type) right after sub-byte fields, and similar
+ALIGN_SHAPES = [
+    ["struct", ["u3", ["farr", ["struct", ["u8"]], 2], "u5"]],
+    ["struct", ["bool", ["varr", ["struct", ["u8", "bool"]], 2], "u8"]],
+    ["struct", ["u5", ["farr", ["delim", ["struct", ["u8"]], 16], 1], "bool"]],
+    ["union", ["u3", ["varr", ["struct", ["u16"]], 1]]],
+]
+
+
 
 def _template(spec: typing.Any, rnd: random.Random) -> typing.Any:
     if isinstance(spec, str):
@@ -426,7 +435,7 @@ def _conditions(tier: str, seed: int) -> typing.List[Cond]:
     out = []  # type: typing.List[Cond]
     limit = 2**10 if thorough else 2**6
     maxsym = 3 if thorough else 2
-    for spec in T.catalogue(tier, seed):
+    for spec in T.catalogue(tier, seed) + ALIGN_SHAPES:
         if not S.slots(spec):
             continue
         for _ in range(8 if thorough else 3):
